@@ -80,7 +80,8 @@ type Scn struct {
 	NPeers   int      `json:"n_peers"`
 	Silent   []string `json:"silent"`
 	TxMode   string   `json:"tx_mode"`
-	Phase    string   `json:"phase"` // idle | midsync | reorg | nopeers | notstarted
+	Phase    string   `json:"phase"` // idle | midsync | reorg | nopeers | notstarted | comp (see comp.go)
+	Comp     *Comp    `json:"comp,omitempty"`
 	DelayMs  int      `json:"delay_ms"`
 	Calls    []string `json:"calls"`
 	Persist  bool     `json:"persist"`
@@ -263,6 +264,9 @@ func startCall(kind string, cl *ns.Client, ch *ns.Chain, r *rand.Rand) *call {
 }
 
 func runScn(s *Scn, work string) (fails []c.ImplFailure) {
+	if s.Phase == "comp" {
+		return runComp(s, work)
+	}
 	o := &Obs{}
 	s.Obs = o
 	fail := func(what, tag string) {
@@ -507,7 +511,7 @@ func corpus(seed, tip int64) []Scn {
 // ---------------------------------------------------------------------
 // Coq terms.
 
-var phaseCode = map[string]int64{"idle": 0, "midsync": 1, "reorg": 2, "nopeers": 3, "notstarted": 4}
+var phaseCode = map[string]int64{"idle": 0, "midsync": 1, "reorg": 2, "nopeers": 3, "notstarted": 4, "comp": 5}
 var kindCode = map[string]int64{"getblock": 0, "getcfilter": 1, "getutxo": 2, "rescan": 3, "sendtx": 4, "peers": 5}
 var classCode = map[string]int64{"ok": 0, "shutdown": 1, "cancel": 2, "timeout": 3, "other": 4, "hung": 5}
 var silentBit = map[string]int64{"getdata": 1, "getcfilters": 2, "inv": 4, "getcfheaders": 8, "getheaders": 16, "getcfcheckpt": 32}
@@ -555,9 +559,13 @@ func main() {
 			s.TipUnix = tip
 		}
 		s.Obs = nil
+		if s.Comp != nil {
+			s.Comp.Panic = ""
+		}
 		ss = []Scn{s}
 	} else {
 		ss = corpus(a.Seed, tip)
+		ss = append(ss, compCorpus(a.Seed, tip, 20)...)
 		n := 50
 		if a.Tier == "thorough" {
 			n = 300
@@ -572,7 +580,9 @@ func main() {
 	}
 	// Build the shared chains before the clock-sensitive part starts.
 	for i := range ss {
-		ns.CachedChain(ss[i].Seed, ss[i].ChainLen, time.Unix(ss[i].TipUnix, 0), 0.3)
+		if ss[i].Phase != "comp" {
+			ns.CachedChain(ss[i].Seed, ss[i].ChainLen, time.Unix(ss[i].TipUnix, 0), 0.3)
+		}
 	}
 	var wg sync.WaitGroup
 	var fmu sync.Mutex
